@@ -352,86 +352,36 @@ def rule_r2(ctx: Ctx) -> None:
         if ok_gen:
             ctx.ob("C02.R2", cn, cn.node, f"create_node({sym.name}): returns the generated value", ok_ret, why_ret)
             ctx.ob("C02.R3", cn, cn.node, f"create_node({sym.name}): forwards the sibling values to generate", ok_fwd, why_fwd)
-    # ---- stack creator
-    stf0 = ctx.fn(STACK)
-    # the field loop: in the stack mapper itself or in a helper of the same module that it calls
-    cands = [stf0]
-    for c_ in walk_local(stf0.node, include_nested=True):
-        if isinstance(c_, ast.Call):
-            t_ = ctx.res.resolve(stf0, c_)
-            if t_.kind == "repo":
-                cands += [g for g in t_.targets if g.module is stf0.module and g not in cands]
-    stf = stf0
-    loops = []
-    for g in cands:
-        ls = [l for l in walk_local(g.node) if isinstance(l, ast.For) and isinstance(l.iter, ast.Call) and call_name(l.iter) == "get_arguments"]
-        if ls:
-            stf, loops = g, ls
-            break
-    body = None
-    if len(loops) == 1:
-        l = loops[0]
-        body = l.body
-    else:
-        # [helper(.., field_type) for _, field_type in get_arguments(t)]: the helper's body handles one field
-        for g in cands:
-            for lc in walk_local(g.node):
-                if isinstance(lc, (ast.ListComp, ast.GeneratorExp)) and len(lc.generators) == 1 and isinstance(lc.elt, ast.Call) \
-                        and any(isinstance(c_, ast.Call) and call_name(c_) == "get_arguments" for c_ in ast.walk(lc.generators[0].iter)):
-                    t_ = ctx.res.resolve(g, lc.elt)
-                    if t_.kind == "repo" and len(t_.targets) == 1:
-                        stf, l, body = t_.targets[0], t_.targets[0].node, t_.targets[0].node.body
-    if body is None:
-        ctx.ob("C02.R2", stf, stf.node, "stack mapper: field loop", None, f"{len(loops)} loops over get_arguments")
-        return
-    from ..astutil import may_fall_through
-    from ..dispatch import Branch, chain, classify
-    # the per-field dispatch as an ordered list of branches: if/elif chains, and guard clauses ('if T: ...; continue/raise/return'
-    # followed by the rest of the body, which then runs under 'not T')
-    brs_all: list = []
-    for k_, st_ in enumerate(body):
-        if not isinstance(st_, ast.If):
-            continue
-        ch = chain(st_)
-        if len(ch) >= 2 and any(b.form == "else" or True for b in ch) and (st_.orelse or len(ch) > 1):
-            brs_all += ch
-        else:
-            b0 = ch[0]
-            if not may_fall_through(b0.body):
-                if b0.negated:
-                    # if not <form>(t): raise/continue  ->  the rest of the body is the <form> branch
-                    brs_all.append(Branch(b0.form, b0.test, body[k_ + 1:], False))
-                else:
-                    brs_all.append(b0)
-            else:
-                brs_all.append(b0)
-    done = False
-    if brs_all:
-        brs = brs_all
-        forms = [b.form if not b.negated else "neg:" + b.form for b in brs]
-        if "annotated" in forms:
-            done = True
-            ai = forms.index("annotated")
-            validates = any(isinstance(c, ast.Call) and (call_name(c) == "validate" or call_name(c) == "find_element_that_meets_mh")
-                            for s_ in brs[ai].body for c in ast.walk(s_))
-            ctx.ob("C02.R2", stf, brs[ai].test, "stack mapper: refined fields take a value accepted by validate", validates,
-                   "" if validates else "the refined branch does not consult the refinement")
-            earlier = [b for b in brs[:ai] if not b.negated and (b.form.startswith("member:") or b.form in ("generic", "other", "registered"))]
-            captured = None
-            for b in earlier:
-                if b.form.startswith("member:") and _keys_include_annotated(ctx, stf, b):
-                    captured = b
-            ctx.ob("C02.R2", stf, brs[ai].test, "stack mapper: the refined branch is reachable for annotated field types",
-                   captured is None,
-                   "" if captured is None else
-                   f"'{norm(captured.test)}' is tested first and the stacks are keyed by every mentioned type *including annotated "
-                   f"ones* (collect_types yields its argument before unwrapping): a refined field pops an unvalidated value from "
-                   f"its own, never-filled stack or the refinement is never consulted (Annotated[int, IntRange(5, 9)] received 0)")
-    if not done:
-        mentions = any(isinstance(c_, ast.Call) and call_name(c_) in ("is_metahandler", "is_annotated") for b_ in l.body for c_ in ast.walk(b_))
-        ctx.ob("C02.R2", stf, l, "stack mapper: annotated field types are refined", None if mentions else False,
-               "the field loop tests for annotated types in a form the rule does not follow (guard clauses / helper)" if mentions else
-               "no branch of the stack mapper's field loop handles annotated types")
+    # ---- stack creator (model, sa/rules/stackmodel.py): P(f: Annotated[int, MH]) with an int on the int stack must be built from
+    # that int after the refinement's validate accepted it
+    from ..modelinterp import TypeV
+    from .stackmodel import INT as S_INT, kind_of, run_stack
+    stf = ctx.fn(STACK)
+    SP = TypeV("class", "P")
+    S_ANN = TypeV("annotated", "Annotated[int, MH]", (S_INT,), Sym("MH"))
+    try:
+        runs = run_stack(ctx, SP, [S_INT, SP, SP], {SP: [("f", S_ANN)]}, {}, [S_INT, S_ANN, SP])
+    except Budget:
+        runs = None
+    ok_s: Optional[bool] = None
+    why_s = "too many interpretations"
+    if runs is not None:
+        ok_s, why_s = True, ""
+        for trace, rv, notes in runs:
+            b = [e for e in trace if e.kind == "call" and e.name == "apply_constructor" and e.args and e.args[0] == SP]
+            vals = [e for e in trace if e.kind == "call" and e.name == "validate"]
+            if not b:
+                ok_s = False
+                why_s = ("with an int on the int stack, P(f: Annotated[int, MH]) is never built: the refined field is looked up under its own "
+                         "(never filled) stack key, so the branch that consults the refinement is dead and the field can only be served by "
+                         "an unvalidated value pushed for the annotated type itself (Annotated[int, IntRange(5, 9)] received 0)")
+            elif not (isinstance(b[-1].args[1], list) and len(b[-1].args[1]) == 1 and kind_of(b[-1].args[1][0]) == "int"
+                      and any(v.args and v.args[0] == b[-1].args[1][0] for v in vals)):
+                ok_s = False
+                why_s = f"the refined field is filled with {b[-1].args[1]!r} without the refinement's validate having accepted that value"
+            if ok_s is False:
+                break
+    ctx.ob("C02.R2", stf, stf.node, "stack mapper: a refined field takes a value of the base type that its refinement's validate accepted", ok_s, why_s)
 
 
 def _keys_include_annotated(ctx: Ctx, stf: FunctionInfo, b) -> bool:
